@@ -21,7 +21,7 @@ sys.path.insert(0, "lib"); sys.path.insert(0, "gen")
 import common
 print("driver:", common.build_driver())
 print("cdriver:", common.build_cdriver())
-res = common.build_harnesses(["default", "dbg", "sse42ct", "avx2ct", "nosimd", "rtonly", "nostd"])
+res = common.build_harnesses(["default", "dbg", "ovf", "sse42ct", "avx2ct", "nosimd", "rtonly", "nostd"])
 for v, (ok, out) in res.items():
     print("harness", v, "ok" if ok else "FAILED " + out[-300:])
 PY
